@@ -21,6 +21,9 @@ pub enum Case {
     Enc { ke: String, id: String, msg_len: usize, r: String, tag: String },
     /// reference-made ciphertext for (ke, id, msg, r) altered as `tamper` says ("none" must decrypt)
     Dec { ke: String, id: String, msg_len: usize, r: String, tamper: String },
+    /// a conforming ciphertext whose C1 is the given curve point (made with the recipient's key by the reference, as any
+    /// sender whose r happens to hit that point would): it must decrypt
+    DecChosenC1 { ke: String, id: String, msg_len: usize, x: String, y: String, tag: String },
 }
 
 fn ident(spec: &str, seed: u64) -> Vec<u8> {
@@ -55,6 +58,10 @@ fn dec_key(ke: &BigUint, id: &[u8]) -> Option<G2> {
 fn msg_of(ctx: &Ctx, tag: &str, len: usize) -> Vec<u8> {
     if tag == "annex-example" {
         b"Chinese IBE standard".to_vec()
+    } else if tag.starts_with("content=zero") {
+        vec![0u8; len]
+    } else if tag.starts_with("content=ff") {
+        vec![0xffu8; len]
     } else {
         content("seed", len, ctx.seed)
     }
@@ -74,7 +81,8 @@ pub fn eval(ctx: &Ctx, case: &Case) {
             let Some(de) = dec_key(&ke, &idb) else { return };
             // tag ".../Zq=<name>/Zp=<name>": the key objects hold de (G2) and Ppub-e (G1) in those Jacobian representations
             let zn = z_names(tag);
-            let msk = Sm9EncMasterKey { ke: to_limbs(&ke), ppube: match &zn { Some((_, zp)) => lib_g1(&ppube, &z1_named(zp, ctx.seed)), None => lib_g1_affine(&ppube) } };
+            let ke_field = if tag.starts_with("public-only") { BigUint::from(tag.len() as u32 % 2) } else { ke.clone() };
+            let msk = Sm9EncMasterKey { ke: to_limbs(&ke_field), ppube: match &zn { Some((_, zp)) => lib_g1(&ppube, &z1_named(zp, ctx.seed)), None => lib_g1_affine(&ppube) } };
             let mut gsm = SplitMix::new(ctx.seed, "c10filler");
             let mut q = vec![cand(&r)];
             for _ in 0..4 {
@@ -121,7 +129,9 @@ pub fn eval(ctx: &Ctx, case: &Case) {
             }
             // library round trip with the key extracted by the library
             ctx.call();
-            let key = match guard(|| msk.extract_key(&idb)) {
+            // (a sender object that holds only the public key cannot extract: extraction uses the real master key)
+            let msk_full = Sm9EncMasterKey { ke: to_limbs(&ke), ppube: msk.ppube };
+            let key = match guard(|| msk_full.extract_key(&idb)) {
                 Guard::Done(Some(k)) => k,
                 other => {
                     ctx.violation("Sm9EncMasterKey::extract_key", "no-key", gdbg(&other.map(|o| o.is_some())), cj());
@@ -146,6 +156,41 @@ pub fn eval(ctx: &Ctx, case: &Case) {
                 return;
             }
             ctx.outcome(&format!("ok/enc/{}", lc));
+        }
+        Case::DecChosenC1 { ke, id, msg_len, x, y, tag } => {
+            let ke = hb(ke);
+            let idb = ident(id, ctx.seed);
+            let msg = content("seed", *msg_len, ctx.seed);
+            let (ppube, _) = master(&ke);
+            let Some(de) = dec_key(&ke, &idb) else { return };
+            let c1: refmodels::sm9::G1 = Some((hb(x), hb(y)));
+            if !pr.e1.on_curve(&c1) {
+                ctx.machinery_error("DecChosenC1 point is not on the curve");
+                return;
+            }
+            // K = KDF(C1 || e(C1, de) || ID, |M| + 32)
+            let w = sm9::pairing(&c1, &de);
+            let mut z = sm9::g1_bytes(&c1).to_vec();
+            z.extend_from_slice(&sm9::f12_bytes(&w));
+            z.extend_from_slice(&idb);
+            let k = refmodels::sm3::kdf(&z, msg.len() + 32);
+            let (k1, k2) = k.split_at(msg.len());
+            if k1.iter().all(|b| *b == 0) {
+                return;
+            }
+            let c2: Vec<u8> = msg.iter().zip(k1).map(|(a, b)| a ^ b).collect();
+            let c3 = sm9::mac(k2, &c2);
+            let mut ct = vec![0x04u8];
+            ct.extend_from_slice(&sm9::g1_bytes(&c1));
+            ct.extend_from_slice(&c3);
+            ct.extend_from_slice(&c2);
+            ctx.trace();
+            let key = Sm9EncKey { ppube: lib_g1_affine(&ppube), de: lib_g2_affine(&de) };
+            ctx.call();
+            match guard(|| key.decrypt(&idb, &ct)) {
+                Guard::Done(Ok(m)) if m == msg => ctx.outcome(&format!("ok/dec/chosen-C1/{}", tag)),
+                other => ctx.violation("Sm9EncKey::decrypt", &format!("valid-ciphertext-not-decrypted/chosen-C1/{}", tag), gdbg(&other), cj()),
+            }
         }
         Case::Dec { ke, id, msg_len, r, tamper } => {
             let (ke, r) = (hb(ke), hb(r));
@@ -290,12 +335,45 @@ pub const ANNEX_R: &str = "0000AAC0541779C8FC45E3E2CB25C12B5D2576B2129AE8BB5EE2C
 pub fn run(ctx: &Arc<Ctx>) {
     refmodels::selftest::run(&["sm3", "sm9"]).unwrap_or_else(|e| ctx.machinery_error(format!("reference self-test failed: {}", e)));
     let n = sm9::params().n.clone();
-    ctx.set_rule("encryption: every message length 1..=255 with one (master, identity, r); masters {Annex ke, N-2, seeded} x identities {Bob,'',seeded, 12 normalisation-sensitive variants of one name} x nonces {1,2,N-2,Annex r,2^255+1,seeded} at length 20; the GM/T 0044.5 example, key objects holding Ppub-e / de in Jacobian representations with structured Z (Z in Fp, purely imaginary, generic), nonces crafted so that K1 is all zero (step A6 retry): ciphertext = reference C1||C3||C2 byte for byte for the accepted r (MAC = SM3(C2||K2)), library and reference decryptors recover M. Decryption of reference-made ciphertexts (lengths {1,20}, thorough +{32,255}): untouched must decrypt; every single-bit flip, every truncation, extension, over-long bodies, other identity, foreign tags, C1 off-curve with the original body and with the body recomputed for the foreign point (invalid-curve attack, using the library's own pairing), (0,0) with the original body and with bodies forged for a constant pairing value, unreduced coordinates (all-ones and the v+p aliases of the same point over 12 further nonces), another valid point: all must be refused with an error, never a plaintext, never a panic.");
+    ctx.set_rule("encryption: every message length 1..=255 with one (master, identity, r); masters {Annex ke, N-2, seeded} x identities {Bob,'',seeded, 12 normalisation-sensitive variants of one name} x nonces {1,2,N-2,Annex r,2^255+1,seeded} at length 20; the GM/T 0044.5 example, key objects holding Ppub-e / de in Jacobian representations with structured Z (Z in Fp, purely imaginary, generic), all-zero and all-ones messages, a sender object holding only the master public key, nonces crafted so that K1 is all zero (step A6 retry): ciphertext = reference C1||C3||C2 byte for byte for the accepted r (MAC = SM3(C2||K2)), library and reference decryptors recover M. Conforming ciphertexts whose C1 has a boundary coordinate (x = p-1, smallest x, y = R^-1) must decrypt. Decryption of reference-made ciphertexts (lengths {1,20}, thorough +{32,255}): untouched must decrypt; every single-bit flip, every truncation, extension, over-long bodies, other identity, foreign tags, C1 off-curve with the original body and with the body recomputed for the foreign point (invalid-curve attack, using the library's own pairing), (0,0) with the original body and with bodies forged for a constant pairing value, unreduced coordinates (all-ones and the v+p aliases of the same point over 12 further nonces), another valid point: all must be refused with an error, never a plaintext, never a panic.");
     let mut g = SplitMix::new(ctx.seed, "c10");
     let mut cases: Vec<Case> = Vec::new();
     cases.push(Case::Enc { ke: ANNEX_KE.into(), id: "Bob".into(), msg_len: 20, r: ANNEX_R.into(), tag: "annex-example".into() });
     for id in crate::alpha::NORM_IDS {
         cases.push(Case::Enc { ke: ANNEX_KE.into(), id: id.into(), msg_len: 20, r: ANNEX_R.into(), tag: "id=normalisation-sensitive".into() });
+    }
+    // all-zero and all-ones messages; a sender object that holds the master PUBLIC key only (secret field 0 / 1)
+    for l in [1usize, 2, 16, 32, 33, 255] {
+        for t in ["content=zero", "content=ff"] {
+            cases.push(Case::Enc { ke: ANNEX_KE.into(), id: "Bob".into(), msg_len: l, r: ANNEX_R.into(), tag: t.into() });
+        }
+    }
+    for t in ["public-only", "public-only/"] {
+        cases.push(Case::Enc { ke: ANNEX_KE.into(), id: "Bob".into(), msg_len: 20, r: ANNEX_R.into(), tag: t.into() });
+    }
+    // conforming ciphertexts whose C1 has a boundary coordinate: x = p - 1 (both roots: (-1)^3 + 5 = 4), the smallest x on
+    // the curve, coordinates whose Montgomery form is a small integer
+    {
+        let p = &sm9::params().p;
+        let mut pts: Vec<(BigUint, BigUint, &str)> = vec![(p - 1u32, BigUint::from(2u32), "x=p-1"), (p - 1u32, p - 2u32, "x=p-1")];
+        let mut x = BigUint::zero();
+        let mut n_small = 0;
+        while n_small < 2 {
+            let rhs = (&x * &x * &x + 5u32) % p;
+            if let Some(y) = sm9::sqrt_fp(&rhs) {
+                pts.push((x.clone(), y.clone(), "x-small"));
+                pts.push((x.clone(), (p - &y) % p, "x-small"));
+                n_small += 1;
+            }
+            x += 1u32;
+        }
+        let rinv = (BigUint::one() << 256usize).modpow(&(p - 2u32), p);
+        if let Some(xx) = sm9::cbrt_fp(&((&rinv * &rinv + p - 5u32) % p)) {
+            pts.push((xx, rinv.clone(), "y=R^-1"));
+        }
+        for (x, y, tag) in pts {
+            cases.push(Case::DecChosenC1 { ke: ANNEX_KE.into(), id: "Bob".into(), msg_len: 20, x: hexbig(&x), y: hexbig(&y), tag: tag.into() });
+        }
     }
     for (i, zq) in Z2_NAMES.iter().enumerate() {
         cases.push(Case::Enc { ke: ANNEX_KE.into(), id: "Bob".into(), msg_len: 20, r: ANNEX_R.into(), tag: format!("key-objects/Zq={}/Zp={}", zq, Z1_NAMES[i % Z1_NAMES.len()]) });
